@@ -89,7 +89,12 @@ def run_storage_plan(plan):
             tape.install()
             tape.begin_op(cfg.get("ctor_tape"), None)
         seams.reseed(plan.get("rs0", 1))
-        storage = STORAGE_CLASSES[kind](**storage_kwargs(scfg))
+        try:
+            storage = STORAGE_CLASSES[kind](**storage_kwargs(scfg))
+        except Exception as exc:  # noqa: BLE001  a storage that cannot be built is an abort, not a C07 verdict
+            res["aborted"] = "construction %s: %s" % (type(exc).__name__, str(exc)[:80])
+            res["digest"] = h.hexdigest()
+            return res
         targets = scfg.get("targets", DEFAULT_TARGETS[kind])
         cap = {"batch": None, "sequence": 1}.get(kind, scfg.get("size"))
         seen = []            # (tag, y_expected)
